@@ -352,6 +352,9 @@ func TestC11_SingleNode(t *testing.T) {
 		for i := 0; i < out.info.excludedRollback; i++ {
 			st.Exclude("value operation whose roll-back is inexact in the current state replaced by SET (known finding " + k11KeyRollback + ")")
 		}
+		for i := 0; i < out.info.excludedBytesOnArray; i++ {
+			st.Exclude("APPEND/SHIFT that could meet an array value replaced by SET (malformed arrays are C15's domain)")
+		}
 		for i := 0; i < out.info.skippedDupQueued; i++ {
 			st.Exclude("lock request for a LockId that is still queued skipped (duplicate LockId in the queue is not C11)")
 		}
